@@ -188,6 +188,22 @@ Lemma C11_mp_before_fix_ok_inner d m B var x i j : (S x < m)%nat ->
   C11_mp_choi_from_var_before_fix F d m B var x i j = choi_of_hs d B (C11_mp_hs F (d * d) m var x) i j.
 Proof. intros Hx. unfold C11_mp_choi_from_var_before_fix. apply C11_choi_of_hs_ext. intros a b _ _.
   unfold C11_mp_vec_before_fix, C11_mp_hs. destruct (Nat.ltb_spec (S x) m); [|lia]. f_equal. lia. Qed.
+(* ------------------------------------------------------------------ the CVXPY loss expressions with equal schedule ratios c_i = cc (equal shots per
+   schedule: cc = 1/S) are cc times the identity-weight losses of the predicted distributions: the statement behind the harness check
+   `S * problem.value = quara's loss at the returned point` *)
+Lemma C11_cvx_uniform_ratio (ln : F -> F) (eps cc : F) (S : nat) (nout : nat -> nat) (c : nat -> F) (q p : nat -> nat -> F) :
+  (forall i, (i < S)%nat -> c i = cc) ->
+  C11_cvx_se F S nout c q p = cc * sumn S (fun i => sumn (nout i) (fun j => (p i j - q i j) * (p i j - q i j)))
+  /\ C11_cvx_re F ln eps S nout c q p
+     = cc * sumn S (fun i => sumn (nout i) (fun j => if C11_gt F (q i j) eps then q i j * (ln (q i j) - ln (p i j)) else 0)).
+Proof. intros Hc. unfold C11_cvx_se, C11_cvx_re. split; rewrite <- sumn_scale_l; apply sumn_ext; intros i Hi; now rewrite (Hc i Hi). Qed.
+(* no term of the relative-entropy expression depends on p at an outcome with q <= eps: such outcomes are skipped ENTIRELY *)
+Lemma C11_cvx_re_skips_unobserved (ln : F -> F) (eps : F) (S : nat) (nout : nat -> nat) (c : nat -> F) (q p p' : nat -> nat -> F) :
+  (forall i j, (i < S)%nat -> (j < nout i)%nat -> C11_gt F (q i j) eps = true -> p i j = p' i j) ->
+  C11_cvx_re F ln eps S nout c q p = C11_cvx_re F ln eps S nout c q p'.
+Proof. intros H. unfold C11_cvx_re. apply sumn_ext; intros i Hi. f_equal. apply sumn_ext; intros j Hj.
+  destruct (C11_gt F (q i j) eps) eqn:E; [|reflexivity]. now rewrite (H i j Hi Hj E). Qed.
+
 (* ------------------------------------------------------------------ `M >> 0` and `M^T >> 0` are the same constraint:
    Re (x^dagger M^T x) = Re (conj(x)^dagger M conj(x))  for EVERY complex matrix M, so the _with_sparsity expressions
    (transposes of the object's operator, T8c) put exactly the physical inequality constraint *)
